@@ -195,7 +195,7 @@ def rule_t2(chk: Check, ix: Index):
     for test, body in branches:
         name = norm_stmt(test) if test is not None else "else"
         chk.count("T2-eof-exit")
-        ok, how = _eof_leaves(ix, body, loop)
+        ok, how = _eof_leaves(ix, body, loop, name)
         chk.require(ok, "T2-eof-exit", f"_tokenize:{name}", f"{f.rel}:{body[0].lineno}",
                     f"at end of input (readline returned '') the branch `{name}` must leave the line loop or raise; {how}")
 
@@ -205,7 +205,7 @@ def _eof_test(e: ast.expr) -> bool:
     return "not state.line" in s or "state.line == ''" in s
 
 
-def _eof_leaves(ix: Index, body, loop) -> tuple[bool, str]:
+def _eof_leaves(ix: Index, body, loop, branch_cond: str = "") -> tuple[bool, str]:
     # direct: `if not state.line: raise/break`
     for st in body:
         if isinstance(st, ast.If) and _eof_test(st.test) and isinstance(st.body[-1], (ast.Raise, ast.Break, ast.Return)):
@@ -219,6 +219,13 @@ def _eof_leaves(ix: Index, body, loop) -> tuple[bool, str]:
             for s2 in g.node.body:
                 if isinstance(s2, (ast.For, ast.While)):
                     break
+                if isinstance(s2, ast.If) and not _eof_test(s2.test) and any(isinstance(x, (ast.Return, ast.Raise)) for x in ast.walk(s2)):
+                    # an earlier way out: harmless only if its condition contradicts the branch we came through
+                    t = norm_stmt(s2.test)
+                    if t not in (f"not {branch_cond}", f"not ({branch_cond})"):
+                        return False, (f"{name} can leave through `if {t}` before it looks at end of input: with the input "
+                                       f"exhausted inside that state the line loop spins forever")
+                    continue
                 if isinstance(s2, ast.If) and _eof_test(s2.test):
                     last = s2.body[-1]
                     if isinstance(last, ast.Raise):
@@ -454,6 +461,50 @@ def rule_e3(chk: Check, ix: Index, ir):
                                   "relies on the caller having fetched a token before (a rule always peeks its start token)")
 
 
+def rule_e3c(chk: Check, ix: Index, reach: set[str]):
+    """Constant-index subscripts of token text: NEWLINE/DEDENT/ENDMARKER tokens have empty text, so `tok.string[k]` needs a
+    guard evaluated first (a kind test that implies non-empty text, or a truthiness/len test)."""
+    nonempty_kinds = ("Token.OP", "Token.NAME", "Token.NUMBER", "Token.STRING", "Token.FSTRING_START", "Token.SEARCH_PATH")
+    for q in sorted(reach):
+        f = ix.funcs[q]
+        for n in own_nodes(f.node):
+            if not (isinstance(n, ast.Subscript) and isinstance(n.value, ast.Attribute) and n.value.attr == "string"
+                    and not isinstance(n.slice, ast.Slice)):
+                continue
+            tokexpr = norm_stmt(n.value.value)
+            chk.count("E3-token-text-index")
+            key = f"{q}:{norm_stmt(n)}"
+
+            def is_guard(e: ast.expr) -> bool:
+                s0 = norm_stmt(e)
+                return any(s0 == f"{tokexpr}.type == {k}" for k in nonempty_kinds) or s0 in (
+                    f"{tokexpr}.string", f"len({tokexpr}.string) > 0", f"({tokexpr}.type == Token.OP)") or \
+                    (s0.startswith("(") and s0.endswith(")") and is_guard_text(s0[1:-1]))
+
+            def is_guard_text(t: str) -> bool:
+                return any(t == f"{tokexpr}.type == {k}" for k in nonempty_kinds)
+
+            guarded = False
+            # (a) an earlier conjunct of the same `and`
+            for b in own_nodes(f.node):
+                if isinstance(b, ast.BoolOp) and isinstance(b.op, ast.And):
+                    for i, v in enumerate(b.values):
+                        if any(n is x for x in ast.walk(v)):
+                            if any(is_guard(u) for u in b.values[:i]):
+                                guarded = True
+            # (b) an enclosing `if` whose test is (or starts with) a guard
+            for b in own_nodes(f.node):
+                if isinstance(b, ast.If) and any(n is x for st in b.body for x in ast.walk(st)):
+                    t = b.test
+                    conj = t.values if isinstance(t, ast.BoolOp) and isinstance(t.op, ast.And) else [t]
+                    if any(is_guard(u) for u in conj):
+                        guarded = True
+            chk.require(guarded, "E3-token-text-index", key, f"{f.rel}:{n.lineno}",
+                        f"`{norm_stmt(n)}` indexes a token's text without first establishing that the token has text: implicit "
+                        f"NEWLINE, DEDENT and ENDMARKER tokens carry '' and raise IndexError here")
+    chk.floor("E3-token-text-index", 1)
+
+
 # ------------------------------------------------------------------ E5: recursion
 def rule_e5(chk: Check, ix: Index):
     guard = False
@@ -533,11 +584,12 @@ def run(chk: Check):
     rule_e1b(chk, tr)
     rule_e2(chk, ix, reach)
     rule_e3(chk, ix, ir)
+    rule_e3c(chk, ix, reach)
     rule_e5(chk, ix)
     rule_e6(chk, ix)
     tr.feed(chk, {k: "E7-action-type-hazard" for k in (
         "S0-bad-attribute", "S0-none-attribute", "S0-none-iterated", "S0-none-subscript", "S0-bad-operand", "S0-bad-index",
-        "S0-unpack-arity", "S0-call-arity", "S0-none-len", "S0-chain-nonlist", "E4-mixed-literal-add")})
+        "S0-unpack-arity", "S0-call-arity", "S0-none-len", "S0-chain-nonlist", "S0-index-empty", "E4-mixed-literal-add")})
     chk.units["type_hazard_rules"] = "attribute/subscript/iteration/operand/arity hazards met while typing 600+ action call sites"
     chk.floor("T1-scan-progress", 3)
     chk.floor("T1-monotone-pos", 6)
